@@ -31,7 +31,8 @@ def laminaprop(draw, entries=None):
     if n == 3:
         nu = draw(fl(0., 0.45))
         return [e1, e1, nu]
-    ratio = draw(fl(0.02, 1.0))
+    # one ply material in six is a balanced fabric: E1 == E2 exactly, with shear moduli of its own (not E/(2(1+nu)))
+    ratio = 1.0 if draw(st.integers(0, 5)) == 0 else draw(fl(0.02, 1.0))
     e2 = e1 * ratio
     nu12 = draw(fl(0., 0.45))
     # 1 - nu12*nu21 > 0.05 : nu21 = nu12*ratio <= 0.45*0.45 always fine
@@ -81,6 +82,15 @@ def laminate_case(draw, max_plies=12, tscale=None, allow_offset=True, uniform_bi
         nm = draw(st.integers(1, min(3, n)))
         mats = [draw(laminaprop()) for _ in range(nm)]
         props = [mats[draw(st.integers(0, nm - 1))] for _ in range(n)]
+        # lay-ups that read the same from both faces in angles and thicknesses - with the materials mirrored too ('full': B = 0 about
+        # the mid-plane) or not ('geometry': a hybrid that only looks symmetric, B != 0)
+        sym = draw(st.sampled_from(['none', 'none', 'none', 'geometry', 'full']))
+        if sym != 'none' and n >= 2:
+            half = (n + 1) // 2
+            stack = stack[:half] + stack[:n - half][::-1]
+            plyts = plyts[:half] + plyts[:n - half][::-1]
+            if sym == 'full':
+                props = props[:half] + props[:n - half][::-1]
     h = sum(plyts)
     if allow_offset:
         offset = draw(st.one_of(st.just(0.), fl(-3., 3.).map(lambda x: x * h)))
